@@ -20,7 +20,7 @@ from sexp import Sym
 PROP = "C18"
 READY = True
 DRIVER = "dm_stores"
-LEAN_MODULES = ["DaskModel.Props.C18", "DaskModel.Props.C18b", "DaskModel.Props.C18c"]
+LEAN_MODULES = ["DaskModel.Props.C18", "DaskModel.Props.C18b", "DaskModel.Props.C18c", "DaskModel.Props.C18d"]
 TABLES = ["ByteTables"]
 CASE_TIMEOUT_S = 10
 N0 = 1125894277343089729          # first n whose rendering has 11 characters (Lean: format_len_partial / _refuted)
@@ -272,8 +272,74 @@ def case_tables(ctx, inp):
     ctx.branch("tables")
 
 
+def _float_me(x):
+    """a finite float >= 0 as (m, e) with x == m * 2**e"""
+    num, den = float(x).as_integer_ratio()
+    return num, -(den.bit_length() - 1)
+
+
+def case_fmttime(ctx, inp):
+    """format_time against the exact binary64 model (lean/DaskModel/Model/FormatTime.lean)"""
+    from dask.utils import format_time
+    if "int" in inp:
+        n = int(inp["int"])
+        real = format_time(n)
+        if real != format_time(float(n)):
+            ctx.fail("format_time(int) differs from format_time(float(int))", observed=[n, real, format_time(float(n))])
+        x = float(n)
+    else:
+        x = float.fromhex(inp["hex"])
+        real = format_time(x)
+    m, e = _float_me(x)
+    ctx.eq("format_time", ctx.lean(Sym("fmt-time"), m, e), real)
+    unit = real.split(" ")[-1] if " " in real else real
+    ctx.branch("time-" + ("d-hr" if real.endswith("hr") and "d " in real else "hr-m" if real.endswith("m") else
+                          "m-s" if "m " in real else unit))
+    # documented shapes: two fields, units in decreasing order; the small branches print two decimals
+    if x >= 1 and x <= 600 and not (real.endswith(" s") and len(real.split(".")[-1]) == 4):
+        ctx.fail("format_time: seconds are not printed as 'x.xx s'", observed=[x, real])
+
+
+def case_names(ctx, inp):
+    """typename (modelled: module / name / short) and funcname (oracle: documented unwrapping and the 50-char cut)"""
+    import functools
+    from dask.utils import funcname, typename
+    kind = inp["kind"]
+    if kind == "typename":
+        mod, name = inp["module"], inp["name"]
+        typ = type(name, (), {})
+        typ.__module__ = mod
+        for short in (False, True):
+            real = typename(typ, short=short)
+            ctx.eq("typename", ctx.lean(Sym("typename"), mod, name, short), real)
+            # an instance is named after its type — in the LONG form whatever `short` says (the code recurses with
+            # `typename(type(typ))`, dropping the flag; noted in notes/stores.md, outside the statement of C18)
+            ctx.eq("typename(instance)", ctx.lean(Sym("typename"), mod, name, False), typename(typ(), short=short))
+        ctx.branch("typename-" + ("bare" if not mod or mod == "builtins" else "dotted" if "." in mod else "module"))
+        return
+    base_name = inp["name"]
+
+    def f():
+        pass
+    f.__name__ = base_name
+    want = "lambda" if base_name == "<lambda>" else base_name[:50]
+    obj = f
+    for _ in range(inp.get("partials", 0)):
+        obj = functools.partial(obj, 1)
+    got = funcname(obj)
+    if got != want:
+        ctx.fail("funcname of a (partial of a) function is not its name cut to 50 characters", observed=got, expected=want)
+    from dask.utils import methodcaller     # dask's own picklable methodcaller (funcname knows this one)
+    mc = funcname(methodcaller(base_name if base_name.isidentifier() else "m"))
+    if mc != (base_name if base_name.isidentifier() else "m")[:50]:
+        ctx.fail("funcname(methodcaller(name)) is not the method name", observed=mc)
+    if len(got) > 50 or len(mc) > 50:
+        ctx.fail("funcname longer than 50 characters", observed=[got, mc])
+    ctx.branch("funcname-" + ("lambda" if want == "lambda" else "cut" if len(base_name) > 50 else "plain"))
+
+
 CASES = {"fmt": case_fmt, "parse": case_parse, "td": case_td, "natsort": case_natsort, "keysplit": case_keysplit,
-         "tables": case_tables, "misc": case_misc}
+         "tables": case_tables, "misc": case_misc, "fmttime": case_fmttime, "names": case_names}
 
 
 def _casings(rng, u, k=3):
@@ -364,6 +430,38 @@ def generate(ctx):
         s = "".join(rng.choice(talpha) for _ in range(rng.randint(0, 7)))
         if not _huge_exponent(s):
             yield "td", {"s": s, "default": rng.choice(["seconds", "ms", "h"])}
+    # ---- format_time: documented examples, every threshold +- a few ulps, integers, random magnitudes
+    import math
+    for x in (1, 0.001234, 0.00012345, 123.456, 1234.567, 12345.67, 123456.78, 1234567.89, 0.0, 1e-9, 0.999999, 1e-3,
+              0.0009999999, 599.9999, 600.0, 600.5, 7200.0, 7200.5, 172800.0, 172800.5, 86400.0 * 3, 3600.0 * 5):
+        yield "fmttime", {"hex": float(x).hex()}
+    for t in (1e-3, 1.0, 600.0, 7200.0, 172800.0, 0.995, 9.995, 0.009995, 59.995):
+        x = t
+        for _ in range(3):
+            x = math.nextafter(x, 0.0)
+        for _ in range(7):
+            yield "fmttime", {"hex": x.hex()}
+            x = math.nextafter(x, math.inf)
+    for _ in range(ctx.n(150, 1500)):
+        # just below / at / above whole multiples of the units (the quotient may round up to an integer)
+        unit = rng.choice([60, 3600, 86400])
+        k = rng.randint(1, 5000 if unit < 86400 else 300)
+        x = float(unit * k)
+        for _ in range(rng.randint(0, 3)):
+            x = math.nextafter(x, 0.0 if rng.random() < 0.7 else math.inf)
+        yield "fmttime", {"hex": x.hex()}
+    for _ in range(ctx.n(300, 3000)):
+        x = rng.random() * 10.0 ** rng.randint(-9, 8)
+        yield "fmttime", {"hex": x.hex()}
+    for _ in range(ctx.n(100, 1000)):
+        yield "fmttime", {"int": rng.choice([0, 1, 59, 60, 600, 601, 7200, 7201, 172800, 172801, rng.randrange(0, 10 ** rng.randint(1, 9))])}
+    # ---- typename / funcname
+    for mod in (None, "", "builtins", "dask", "dask.core", "a.b.c", "numpy"):
+        for name in ("int", "literal", "X"):
+            yield "names", {"kind": "typename", "module": mod, "name": name}
+    for name in ("f", "<lambda>", "x" * 49, "x" * 50, "x" * 51, "x" * 120, "inc"):
+        for partials in (0, 1, 3):
+            yield "names", {"kind": "funcname", "name": name, "partials": partials}
     # ---- natural_sort_key, key_split
     for s in ["f0", "f10", "abc", "12", "a1b22c", "", "x007y", "1a", "a1", "a--1", "9" * 30]:
         yield "natsort", {"s": s}
@@ -372,7 +470,11 @@ def generate(ctx):
         yield "natsort", {"s": "".join(rng.choice(nalpha) for _ in range(rng.randint(0, 10)))}
     for i in range(len(DOC_KEY_SPLIT)):
         yield "keysplit", {"kind": "doc", "s": "", "i": i}
-    kalpha = "abcdefxyz0123456789-_'(),.<> \""
+    # str.split() whitespace inside the `<…>` branch: \t \n \r \x0b \x0c and the separators \x1c-\x1f
+    for ws in " \t\n\r\x0b\x0c\x1c\x1d\x1e\x1f":
+        for s in (f"<a.b{ws}c d>", f"<{ws}a.b>", f"<a{ws}>", f"x{ws}y-1", f"<{ws}>"):
+            yield "keysplit", {"kind": "str", "s": s}
+    kalpha = "abcdefxyz0123456789-_'(),.<> \"\t\x1c\x1f"
     words = ["x", "hello", "world", "abcdefab", "deadbeef", "ae05086432ca935f6eba409a8ecd4896", "<a.b.C object at 0x1>",
              "1", "22", "", "-", "('x', 1)", "_(x)", "getitem", "0abc", "<>", "< >",
              "ae05086432ca935f6eba409a8ecd489", "ae05086432ca935f6eba409a8ecd48961", "ge05086432ca935f6eba409a8ecd4896",
